@@ -332,7 +332,15 @@ func (e *enc) modularCall(x *ssa.Call, callee *ssa.Function, ct *Contract, args 
 			e.contractError(fr, fmt.Sprintf("modifies of %s: %v", fnFull(callee), err))
 		}
 	}
-	ts := e.freshResults(x, callee.Signature, "res_"+callee.Name())
+	var ts []Term
+	if ct.Pure {
+		// pure function: its results are functions of the arguments (determinism summary); the function's own
+		// verification checks that it writes nothing
+		ts = e.pureApp(callee, args)
+		e.setResult(x, callee.Signature, ts)
+	} else {
+		ts = e.freshResults(x, callee.Signature, "res_"+callee.Name())
+	}
 	env2 := e.callEnv(callee, c.Args, args)
 	env2.mem = e.mem
 	env2.oldMem = pre
@@ -492,7 +500,8 @@ func (e *enc) builtin(x *ssa.Call, bi *ssa.Builtin) {
 		ms := e.so.of(c.Args[0].Type())
 		if p, ok := fr.prov[c.Args[0]]; ok {
 			m = e.read(p)
-			nv := fmt.Sprintf("(mk_%s (store (dom_%s %s) %s false) (val_%s %s) (nil_%s %s))", ms, ms, m, args[1], ms, m, ms, m)
+			mt := c.Args[0].Type().Underlying().(*types.Map)
+			nv := fmt.Sprintf("(mk_%s (store (dom_%s %s) %s false) (store (val_%s %s) %s %s) (nil_%s %s))", ms, ms, m, args[1], ms, m, args[1], e.zero(mt.Elem()), ms, m)
 			e.write(p, nv)
 			fr.val[c.Args[0]] = e.read(p)
 		} else {
@@ -555,4 +564,27 @@ func (e *enc) invoke(x *ssa.Call) {
 	}
 	e.assumps["interface method calls on external objects are deterministic and write no tracked memory"] = true
 	_ = fr
+}
+
+// pureApp: application terms of a pure repo function (one uninterpreted function per result)
+func (e *enc) pureApp(callee *ssa.Function, args []Term) []Term {
+	var sorts []string
+	for _, p := range callee.Params {
+		sorts = append(sorts, e.so.of(p.Type()))
+	}
+	var ts []Term
+	sig := callee.Signature
+	for i := 0; i < sig.Results().Len(); i++ {
+		rty := sig.Results().At(i).Type()
+		f := e.uf(fmt.Sprintf("pure_%s_%d", clean(fnFull(callee)), i), sorts, e.so.of(rty))
+		t := f
+		if len(args) > 0 {
+			t = fmt.Sprintf("(%s %s)", f, strings.Join(args, " "))
+		}
+		ts = append(ts, t)
+		if _, isSlice := rty.Underlying().(*types.Slice); isSlice && !boundVarRe.MatchString(t) {
+			e.useSlice(t, e.so.of(rty))
+		}
+	}
+	return ts
 }
